@@ -17,8 +17,8 @@ GROUPS = {
             ["models.py:Task.__init__", "models.py:Task.validate_objective_weights", "models.py:Task.empty_solution",
              "models.py:ContinuousMultiVariable", "models.py:DiscreteMultiVariable", "models.py:MultiObjectiveVariable", "models.py:BinaryVariable"]),
     "T19": ("C19: the tuner and what is left of the parameter grid (`ParameterGrid.__iter__` / `__len__` are translated: R19)", ["hypertuner.py:ParameterGrid.__init__", "hypertuner.py:ParameterGrid.__getitem__", "hypertuner.py:HyperTuner", "enums.py:TaskType", "enums.py:ModeSolver"]),
-    "T20": ("C20: the parts of Multitask that are not translated (`__check_input__`, `__check_modes__`, `__get_mode__`, `execute`, `__parallelize__`, `__run__` are: R20)",
-            ["multitask.py:Multitask.__init__", "multitask.py:Multitask.export_results", "enums.py:ModeSolver", "enums.py:ExportType"]),
+    "T20": ("C20: the parts of Multitask that are not translated (`__check_input__`, `__check_modes__`, `__get_mode__`, `__init__`, `execute`, `__parallelize__`, `__run__` are: R20)",
+            ["multitask.py:Multitask.__set_keyword_arguments__", "multitask.py:Multitask.export_results", "enums.py:ModeSolver", "enums.py:ExportType"]),
     "T02": ("C02/C04/C06/C11 and the loop: what is left of agent creation (`_generate_agents` / `_init_population` are translated: R11) and the configuration / agent records",
             ["models.py:EarlyStopping", "models.py:BaseOptimizationConfig", "models.py:Agent", "helpers.py:calculate_fitness", "helpers.py:average_fitness",
              "helpers.py:get_pool_executor", "abstract.py:OptimizationAbstract.__init__"]),
